@@ -117,15 +117,18 @@ def _containment(nl, nr, gives_up=False):
         if r is True:
             h.cover("True")
             p = e.space.new_point("p")
-            hints = [c_.inst(p) for c_ in calls]
-            for c_ in calls[2:]:
-                if c_.status == 0:
-                    row = c_.rows[-1]
-                    hints.append(e.comb_hint(c_, p, row, c_.b[-1]))
             # the property's numerical reading: a True answer is wrong only if some point of the left side breaks a
-            # right-hand constraint by more than 1e-4*(1+|constant|)
-            Rtol = e.poly(ar.rows, [to_real(x) + TAU * (1 + z3.If(to_real(x) >= 0, to_real(x), -to_real(x))) for x in br.data])
-            h.ensure("C03.containment.true_only_if_contained_within_tolerance", z3.Implies(L(p), Rtol(p)), hints=hints)
+            # right-hand constraint by more than 1e-4*(1+|constant|).  One obligation per right-hand constraint, each with the
+            # instances of its own LP only (the conjunction over three rows was one slow, unstable query)
+            tested = calls[2:]
+            h.check("C03.containment.one_lp_per_right_hand_constraint", len(tested) == len(ar.rows) and all(c_.status == 0 for c_ in tested), "%d LPs for %d constraints" % (len(tested), len(ar.rows)))
+            for i, (row, x) in enumerate(zip(ar.rows, br.data)):
+                hints = [c_.inst(p) for c_ in calls[:2]]
+                if i < len(tested) and tested[i].status == 0:
+                    c_ = tested[i]
+                    hints += [c_.inst(p), e.comb_hint(c_, p, c_.rows[-1], c_.b[-1])]
+                bound = to_real(x) + TAU * (1 + z3.If(to_real(x) >= 0, to_real(x), -to_real(x)))
+                h.ensure("C03.containment.true_only_if_contained_within_tolerance[right-hand constraint %d]" % i, z3.Implies(L(p), e.space.ev(row, p) <= bound), hints=hints)
         elif r is False:
             h.cover("False")
             wits = [c_.witness for c_ in calls if c_.witness is not None]
